@@ -120,10 +120,14 @@ fn streamer(c: &Content) -> Box<dyn lol_html::html_content::StreamingHandler + S
     let t = ct(c);
     let fail = c.fail_stream;
     let bps = if c.utf8_chunks > 0 { byte_pieces(&c.s, c.utf8_chunks) } else { vec![] };
+    let truncated = truncated_prefix(c).is_some();
     Box::new(move |sink: &mut StreamingHandlerSink<'_>| -> HandlerResult {
         if !bps.is_empty() {
             for p in &bps {
                 sink.write_utf8_chunk(p, t)?;
+            }
+            if truncated {
+                sink.write_str("", t);
             }
         } else {
             for p in &ps {
@@ -761,8 +765,10 @@ fn drive<O: OutputSink, H: HandlerTypes>(
                 d.outcome = Outcome::Err(k, i);
                 // misuse: further calls must panic and must not reach the sink
                 let before = lock(rec).sink_calls;
-                for _ in 0..sc.misuse_calls {
-                    let r2 = guarded((|| rw.write(b"<x>y")));
+                for j in 0..sc.misuse_calls as usize {
+                    // alternate between an empty and a non-empty write (both must panic)
+                    let data: &[u8] = if (i + j) % 2 == 0 { b"" } else { b"<x>y" };
+                    let r2 = guarded((|| rw.write(data)));
                     match r2 {
                         Err(p) => d.misuse_panics.push(panic_msg(p)),
                         Ok(_) => d.misuse_panics.push("<returned normally>".into()),
